@@ -886,6 +886,119 @@ def _cm_map_degree_history(chk):
             ["hiten.algorithms.types.services.maps:_CenterManifoldMapDynamicsService.compute"], "B4 exact evaluation", th)
 
 
+_REPLAY_CONFIG_HISTORY = """import warnings, logging
+warnings.filterwarnings("ignore"); logging.disable(logging.CRITICAL)
+from dataclasses import replace
+import numpy as np
+from hiten import System
+def orbit():
+    return System.from_bodies("earth", "moon").get_libration_point(1).create_orbit("halo", amplitude_z=0.2, zenith="southern")
+def other(o):
+    return replace(o.correction_config, target=(1e-3, 0.0))
+# history: correct; period = 3.0; correct (computed under the default configuration); new configuration; period = 3.0; correct
+o = orbit(); o.correct(); o.period = 3.0; o.correct()
+o.correction_config = other(o); o.period = 3.0; o.correct()
+hist = o.initial_state.copy()
+# same logical state (corrected start, period 3.0, new configuration) without the intermediate computation
+t = orbit(); t.correct(); t.correction_config = other(t); t.period = 3.0; t.correct()
+fresh = t.initial_state.copy()
+print("state after the history:", hist); print("state of the twin:     ", fresh)
+print("CONFIRMED" if np.abs(hist - fresh).max() > 1e-8 else "NOT-CONFIRMED")
+"""
+
+
+def _config_histories(chk):
+    """correct() / generate(): a result computed under one compile-time configuration is never returned after the
+    configuration was replaced (public setters correction_config / continuation_config)"""
+    import hiten.algorithms.types.services.base as sb
+    import hiten.algorithms.types.services.orbits as so
+    from pyvc.core import real_self
+
+    def make_dyn():
+        dyn = real_self(so._OrbitDynamicsService)
+        sb._DynamicsServiceBase.__init__(dyn, "ORBIT")
+        dyn._initial_state, dyn._period, dyn._trajectory, dyn._stability_info = _np.array([9.0, 0, 0, 0, 9.0, 0]), None, None, None
+        return dyn
+
+    def orbit_of(dyn):
+        class Orbit:
+            dynamics = dyn
+            initial_state = property(lambda self: dyn.initial_state)
+            period = property(lambda self: dyn.period)
+            libration_point = "L"
+        return Orbit()
+
+    def th_correct():
+        class Svc(so._OrbitCorrectionService):
+            built = []
+
+            def _default_correction_config(self):
+                return "CFG-A"
+            corrector = property(lambda self: self._mk())
+
+            def _mk(self):
+                # what the real property does: (re)build from the configuration in force when none is cached
+                if self._corrector is None:
+                    cfg = self.correction_config
+                    self._corrector = _Obj(correct=lambda dom, options=None, cfg=cfg: _Obj(
+                        x_corrected=_np.array([1.0, 0, 0, 0, 2.0, 0]) if cfg == "CFG-A" else _np.array([1.5, 0, 0, 0, 2.5, 0]),
+                        half_period=1.25 if cfg == "CFG-A" else 1.75, iterations=3, residual_norm=0.0, cfg=cfg))
+                return self._corrector
+        import itertools
+        for hist in itertools.product(("CFG-A", "CFG-B"), repeat=3):
+            dyn = make_dyn()
+            svc = real_self(Svc, _corrector=None, _correction_config=None, _correction_options=_Obj(to_dict=lambda: {"tol": 1e-12}))
+            sb._DynamicsServiceBase.__init__(svc, orbit_of(dyn))
+            for cfg in hist:
+                # same logical start each round: the uncorrected orbit; then the configuration of this round
+                dyn.reset()
+                dyn._initial_state, dyn._period = _np.array([9.0, 0, 0, 0, 9.0, 0]), None
+                so._OrbitCorrectionService.correction_config.fset(svc, cfg)
+                state, period, res = so._OrbitCorrectionService.correct(svc)
+                want = 2.5 if cfg == "CFG-A" else 3.5
+                if period != want or dyn.period != want or res.cfg != cfg:
+                    raise Refuted("correct(): after correction_config was replaced the result computed under another configuration "
+                                  "is returned", f"configuration history {list(hist)}: the call under {cfg} returned the result "
+                                  f"computed under {res.cfg} (period {period}, expected {want})",
+                                  replay=_REPLAY_CONFIG_HISTORY, inputs={"config_history": list(hist)})
+    chk.obl("correct(): over all histories of length 3 of (set correction_config; correct from the same start) every call returns "
+            "the correction computed under the configuration in force", "K2 postconditions (closed histories, bounded-exhaustive)",
+            ["hiten.algorithms.types.services.orbits:_OrbitCorrectionService.correct",
+             "hiten.algorithms.types.services.orbits:_OrbitCorrectionService.correction_config"], "B4 exact evaluation", th_correct)
+
+    def th_generate():
+        class Svc(so._OrbitContinuationService):
+            def _default_continuation_config(self):
+                return "CFG-A"
+            generator = property(lambda self: self._mk())
+
+            def _mk(self):
+                if self._generator is None:
+                    cfg = self.continuation_config
+                    self._generator = _Obj(generate=lambda dom, options, cfg=cfg: _Obj(
+                        family=[dom], accepted_count=1 if cfg == "CFG-A" else 2, rejected_count=0, iterations=1, success_rate=1.0,
+                        parameter_values=[1.0 if cfg == "CFG-A" else 2.0]))
+                return self._generator
+        import itertools
+        for hist in itertools.product(("CFG-A", "CFG-B"), repeat=3):
+            dyn = make_dyn()
+            dyn._period = 2.5
+            svc = real_self(Svc, _generator=None, _continuation_config=None, _continuation_options=_Obj(to_dict=lambda: {"n": 3}),
+                            apply_continuation=lambda payload: payload)
+            sb._DynamicsServiceBase.__init__(svc, orbit_of(dyn))
+            for cfg in hist:
+                so._OrbitContinuationService.continuation_config.fset(svc, cfg)
+                r = so._OrbitContinuationService.generate(svc)
+                if [float(v) for v in r.parameter_values] != [1.0 if cfg == "CFG-A" else 2.0]:
+                    raise Refuted("generate(): after continuation_config was replaced the family generated under another "
+                                  "configuration is returned", f"configuration history {list(hist)}: the call under {cfg} returned "
+                                  f"the family generated under {'CFG-A' if float(list(r.parameter_values)[0]) == 1.0 else 'CFG-B'}", inputs={"config_history": list(hist)})
+    chk.obl("generate(): over all histories of length 3 of (set continuation_config; generate) every call returns the family "
+            "generated under the configuration in force", "K2 postconditions (closed histories, bounded-exhaustive)",
+            ["hiten.algorithms.types.services.orbits:_OrbitContinuationService.generate",
+             "hiten.algorithms.types.services.orbits:_OrbitContinuationService.continuation_config"], "B4 exact evaluation", th_generate)
+
+
 def _primitives(chk):
     import hiten.algorithms.types.services.base as sb
 
@@ -1052,6 +1165,7 @@ def run(chk):
     _correct_history(chk)
     _stability_histories(chk)
     _cm_map_degree_history(chk)
+    _config_histories(chk)
     _pickle_histories(chk)
     if chk.tier == "thorough":
         _io_witness(chk)
